@@ -9,7 +9,8 @@ from ..common import log
 from . import fmtparser
 
 PROP = "C03"
-WS = " \t\n\r\x0b\x0c"
+# char::is_whitespace (the multi-byte ones matter since U+00A0 / U+3000 are in the alphabet)
+WS = " \t\n\r\x0b\x0c\u0085\u00a0\u1680\u2000\u2001\u2002\u2003\u2004\u2005\u2006\u2007\u2008\u2009\u200a\u2028\u2029\u202f\u205f\u3000"
 
 
 def classify(code, s):
